@@ -250,6 +250,17 @@ func (h *harness) publish(sc *scenario, ks *keyset, doms []signDomain, tmpl, ope
 	for _, d := range doms {
 		kp := keyPathFor(ks.dir, tmpl, d, sc.Selector)
 		b, err := os.ReadFile(dnsFileFor(kp))
+		if err != nil && os.IsNotExist(err) {
+			// The documentation only says that the .dns file is generated "in the same directory":
+			// take the record from the other plausible place (extension replaced instead of
+			// appended) before calling it a harness problem.
+			if alt := strings.TrimSuffix(kp, filepath.Ext(kp)) + ".dns"; alt != dnsFileFor(kp) {
+				if b2, err2 := os.ReadFile(alt); err2 == nil {
+					b, err = b2, nil
+					h.r.Count("key_record_found_with_extension_replaced", 1)
+				}
+			}
+		}
 		if sc.Family == famExisting {
 			b, err = []byte(operatorRecord), nil
 		}
@@ -365,6 +376,12 @@ func extendScenario(s *scenario, q *prng.R, i int, asConfigured bool) {
 		s.Family, s.Selector, s.KeyFormat = famShared, selector, ""
 		s.HC, s.BC = prng.Pick(q, canons), prng.Pick(q, canons)
 	}
+	subdomainSender(s, q, asConfigured)
+}
+
+// subdomainSender: with sign_subdomains the envelope sender is put into the
+// configured domain, a subdomain or a deeper subdomain of it.
+func subdomainSender(s *scenario, q *prng.R, asConfigured bool) {
 	if s.Family != famSubdomains || s.NullSender {
 		return
 	}
